@@ -46,10 +46,10 @@ fn info_tok(v: &Value) -> Option<String> {
     Some(format!("I{}", [s("unit_name")?, u("parent_ingress")?, addr, u("remote_asn")?, rib, s("filename")?, s("name")?, s("desc")?].join(",")))
 }
 
+/// probe / sentinel messages are recognised by their (otherwise unused) AS number anywhere in the payload,
+/// so that a change of the payload's structure does not make the harness wait
 fn has_asn(p: &Published, asn: u32) -> bool {
-    serde_json::from_slice::<Value>(&p.payload).ok()
-        .and_then(|v| v.get(1).and_then(|r| r.get(1)).and_then(|a| a.as_u64()))
-        == Some(asn as u64)
+    String::from_utf8_lossy(&p.payload).contains(&asn.to_string())
 }
 fn is_sentinel(p: &Published) -> bool { has_asn(p, SENTINEL_ASN) }
 
